@@ -1,5 +1,40 @@
 import Pko.Drv.SysMon
-/-! Driver for C09 on the controller-level stream: model = ObjectSet controller model,
-monitor = `Pko.Drv.SysMon.judge .c09`. -/
+import Pko.Drv.HistCommon
+import Pko.Model.PauseSpec
+/-! Driver for C09.
+
+* stream `sys` (controller-level histories of the ObjectSet controller): model = ObjectSet controller
+  model, monitor = `Pko.Drv.SysMon.judge .c09`.
+* stream `odpause` (histories of one ObjectDeployment and its revisions, recognised by the `ops`
+  field; harness/C08 executor, harness/C09 generator): model = `ArchiveHist.observe` (the pass is
+  `Archive.osr`), monitor = `PauseSpec.verdict` on every observed pass of the implementation trace:
+  what the harness saw in its store before the pass, the writes, what it saw after the pass. -/
+namespace Pko.Drv.C09
+open Lean Pko.Drv.HistCommon
+
+inductive AnyScn where
+  | sys (s : Pko.Drv.SysCommon.Scn)
+  | od (h : HistScn)
+
+instance : FromJson AnyScn where
+  fromJson? j :=
+    match j.getObjVal? "ops" with
+    | .ok _ => AnyScn.od <$> fromJson? j
+    | .error _ => AnyScn.sys <$> fromJson? j
+
+def model : AnyScn → String
+  | .sys s => Pko.Drv.SysCommon.model s
+  | .od h => histModel h
+
+def passVerdict (_k : Nat) (p : Pko.Model.ArchiveHist.PassObs) : String :=
+  Pko.Model.PauseSpec.verdict p.pre p.odPaused p.writes p.post
+
+def monitor (s : AnyScn) (out : String) : String :=
+  match s with
+  | .sys s => Pko.Drv.SysMon.monitor .c09 s out
+  | .od _ => judgeTrace out passVerdict
+
+end Pko.Drv.C09
+
 def main (args : List String) : IO UInt32 :=
-  Pko.Util.driverMain Pko.Drv.SysCommon.Scn Pko.Drv.SysCommon.model (Pko.Drv.SysMon.monitor .c09) args
+  Pko.Util.driverMain Pko.Drv.C09.AnyScn Pko.Drv.C09.model Pko.Drv.C09.monitor args
